@@ -831,6 +831,23 @@ func ruleC07d(c *Ctx) {
 						return true
 					}
 				}
+				// an error variable that is nil or the install's error (the install sits in a helper that also
+				// returns the raw writer with a nil error): non-nil means the install failed
+				if isNilConst(bo.Y) && (bo.Op == token.NEQ) == f.Pol && s.ErrVal != nil && isErrorType(bo.X.Type()) {
+					has, only := false, true
+					for _, src := range p.sources(bo.X, provDefault) {
+						switch {
+						case strip(src) == s.ErrVal:
+							has = true
+						case isNilConst(src):
+						default:
+							only = false
+						}
+					}
+					if has && only {
+						return true
+					}
+				}
 			}
 			return false
 		}
